@@ -155,3 +155,164 @@ Proof.
     { apply T; [exact Nm0|]. rewrite Vm0, <- Vm2. symmetry. apply All. lia. }
     assert (a (m - 2) <> a 0) by (intros E; apply ND in E; lia). lia.
 Qed.
+
+(** * The chain invariant *)
+Fixpoint cpairs (g : agraph) (c : list nat) : Prop :=
+  match c with
+  | [] => True
+  | z :: t => match t with x :: _ => pairT g x z | [] => True end /\ cpairs g t
+  end.
+
+Lemma cpairs_nth g : forall c, cpairs g c ->
+  forall i, i + 1 < length c -> pairT g (nth (i + 1) c 0) (nth i c 0).
+Proof.
+  induction c as [|z t IH]; intros H i Hi; [cbn in Hi; lia|].
+  cbn [cpairs] in H. destruct H as [P C]. destruct i as [|i].
+  - destruct t as [|x t']; [cbn in Hi; lia|]. exact P.
+  - replace (S i + 1) with (S (i + 1)) by lia. cbn [nth]. apply IH; [exact C|]. cbn [length] in Hi. lia.
+Qed.
+
+Lemma pairT_ext g g' : ag_nb g = ag_nb g' -> ag_wout g = ag_wout g' -> ag_win g = ag_win g' ->
+  forall x z, pairT g x z -> pairT g' x z.
+Proof.
+  intros H1 H2 H3 x z. unfold pairT, isnb, nbw, simq, pq, den, wo, wi, rowof. rewrite <- H1, <- H2, <- H3. auto.
+Qed.
+
+Lemma cpairs_ext g g' : ag_nb g = ag_nb g' -> ag_wout g = ag_wout g' -> ag_win g = ag_win g' ->
+  forall c, cpairs g c -> cpairs g' c.
+Proof.
+  intros H1 H2 H3. induction c as [|z t IH]; [auto|]. cbn [cpairs]. intros [P C]. split; [|now apply IH].
+  destruct t as [|x t']; [exact I|]. now apply (pairT_ext g g').
+Qed.
+
+Lemma isnb_mg_old g a b ra rb s1 s2 x y : GI g ->
+  alookup a (ag_nb g) = Some ra -> alookup b (ag_nb g) = Some rb ->
+  x <> a -> x <> b -> x <> ag_next g -> y <> ag_next g ->
+  isnb (mg g a b ra rb s1 s2) x y -> y <> a /\ y <> b /\ isnb g x y.
+Proof.
+  intros HG Ea Eb Xa Xb Xn Yn [Hne Hn].
+  rewrite nbw_mg in Hn by assumption.
+  apply Nat.eqb_neq in Xn, Yn. rewrite Xn, Yn in Hn.
+  assert (I1 : in2 a b x = false) by (apply in2_false; tauto). rewrite I1 in Hn.
+  destruct (in2 a b y) eqn:Iy; [congruence|]. apply in2_false in Iy. destruct Iy as [Ya Yb].
+  split; [exact Ya|]. split; [exact Yb|]. split; assumption.
+Qed.
+
+Lemma pairT_mg g a b ra rb s1 s2 x z : GI g ->
+  alookup a (ag_nb g) = Some ra -> alookup b (ag_nb g) = Some rb ->
+  live g x -> x <> a -> x <> b -> z <> a -> z <> b -> z < ag_next g ->
+  pairT g x z -> pairT (mg g a b ra rb s1 s2) x z.
+Proof.
+  intros HG Ea Eb Lx Xa Xb Za Zb Zl (Hnb & Hmax & Htie).
+  assert (Xn : x <> ag_next g) by (apply (gi_lt g HG) in Lx; lia).
+  assert (Zn : z <> ag_next g) by lia.
+  destruct (simq_mg_old g a b ra rb s1 s2 x z HG Ea Eb Xa Xb Xn Za Zb Zn) as [N S].
+  split; [|split].
+  - split; [exact (proj1 Hnb) | rewrite N; exact (proj2 Hnb)].
+  - rewrite S. now apply old_sim_le.
+  - intros y Hy Hq. destruct (Nat.eq_dec y (ag_next g)) as [->|Yn]; [lia|].
+    destruct (isnb_mg_old g a b ra rb s1 s2 x y HG Ea Eb Xa Xb Xn Yn Hy) as (Ya & Yb & Hy').
+    destruct (simq_mg_old g a b ra rb s1 s2 x y HG Ea Eb Xa Xb Xn Ya Yb Yn) as [N' S'].
+    rewrite S', S in Hq. now apply Htie.
+Qed.
+
+Lemma cpairs_mg g a b ra rb s1 s2 : GI g ->
+  alookup a (ag_nb g) = Some ra -> alookup b (ag_nb g) = Some rb ->
+  forall c, (forall x, In x c -> live g x /\ x <> a /\ x <> b) -> cpairs g c -> cpairs (mg g a b ra rb s1 s2) c.
+Proof.
+  intros HG Ea Eb. induction c as [|z t IH]; [auto|]. cbn [cpairs]. intros Hc [P C].
+  split; [|apply IH; [intros x H; apply Hc; now right | exact C]].
+  destruct t as [|x t']; [exact I|].
+  destruct (Hc x) as (Lx & Xa & Xb); [right; now left|].
+  destruct (Hc z) as (Lz & Za & Zb); [now left|].
+  apply pairT_mg; try assumption. now apply (gi_lt g HG).
+Qed.
+
+Record TI (g : agraph) (chain : list nat) (comps : list (nat * nat)) : Prop := {
+  ti_nd : NoDup (akeys (ag_size g));
+  ti_live : forall x, In x (akeys (ag_size g)) -> live g x;
+  ti_closed : forall x y, In x (akeys (ag_size g)) -> isnb g x y -> In y (akeys (ag_size g));
+  ti_cnd : NoDup chain;
+  ti_cin : forall x, In x chain -> In x (akeys (ag_size g));
+  ti_pairs : cpairs g chain;
+  ti_ne : ag_size g <> [] \/ comps <> [] }.
+
+Lemma TI_start g comps node : TI g [] comps -> In node (akeys (ag_size g)) -> TI g [node] comps.
+Proof.
+  intros [T1 T2 T3 T4 T5 T6 T7] Hin. constructor; try assumption.
+  - constructor; [intros [] | constructor].
+  - intros x [<-|[]]. exact Hin.
+  - cbn. tauto.
+Qed.
+
+Lemma TI_comp g node chain comps s : GI g -> TI g (node :: chain) comps ->
+  (forall c, ~ isnb g node c) ->
+  TI {| ag_next := ag_next g; ag_nb := ag_nb g; ag_size := aremove node (ag_size g);
+        ag_wout := ag_wout g; ag_win := ag_win g |} chain (comps ++ [(node, s)]).
+Proof.
+  intros HG [T1 T2 T3 T4 T5 T6 T7] Hno. inversion T4 as [|? ? Hnin Hnd]; subst.
+  constructor; cbn [ag_size].
+  - now apply NoDup_aremove.
+  - intros x H. apply akeys_aremove_In in H. exact (T2 x H).
+  - intros x y H Hy. change (isnb g x y) in Hy. apply akeys_aremove_iff in H; [|exact T1]. destruct H as [H Hx].
+    apply akeys_aremove_neq; [now apply (T3 x y)|]. intros ->. apply (Hno x). now apply isnb_sym.
+  - exact Hnd.
+  - intros x H. apply akeys_aremove_neq; [apply T5; now right|]. intros ->. tauto.
+  - cbn [cpairs] in T6. destruct T6 as [_ C]. revert C. now apply cpairs_ext.
+  - right. intros E. apply app_eq_nil in E. destruct E; discriminate.
+Qed.
+
+Lemma TI_push g node chain comps nn : TI g (node :: chain) comps ->
+  pairT g node nn -> ~ In nn (node :: chain) -> TI g (nn :: node :: chain) comps.
+Proof.
+  intros [T1 T2 T3 T4 T5 T6 T7] P Hnin. constructor; try assumption.
+  - now constructor.
+  - intros x [<-|H]; [|now apply T5]. apply (T3 node x); [apply T5; now left | apply P].
+  - cbn [cpairs]. split; [exact P|]. exact T6.
+Qed.
+
+Lemma keys_mg_sizes (sz : list (nat * nat)) a b new s x : NoDup (akeys sz) ->
+  (In x (akeys (aremove b (aremove a sz) ++ [(new, s)])) <-> (In x (akeys sz) /\ x <> a /\ x <> b) \/ x = new).
+Proof.
+  intros Hnd. rewrite akeys_app, in_app_iff.
+  rewrite akeys_aremove_iff by now apply NoDup_aremove. rewrite akeys_aremove_iff by exact Hnd.
+  cbn. intuition.
+Qed.
+
+Lemma TI_merge n g a b chain rows comps ra rb s1 s2 : SI n g (a :: b :: chain) rows comps ->
+  TI g (a :: b :: chain) comps ->
+  alookup a (ag_nb g) = Some ra -> alookup b (ag_nb g) = Some rb ->
+  TI (mg g a b ra rb s1 s2) chain comps.
+Proof.
+  intros HS [T1 T2 T3 T4 T5 T6 T7] Ea Eb.
+  pose proof (si_g _ _ _ _ _ HS) as HG. pose proof (si_size _ _ _ _ _ HS) as Hsz.
+  inversion T4 as [|? ? Hna Hnd1]; subst. inversion Hnd1 as [|? ? Hnb Hnd2]; subst.
+  assert (La : a < ag_next g) by (apply (gi_lt g HG); unfold live; congruence).
+  assert (Lb : b < ag_next g) by (apply (gi_lt g HG); unfold live; congruence).
+  constructor; cbn [mg ag_size].
+  - apply NoDup_akeys_app_fresh; [now apply NoDup_aremove, NoDup_aremove|].
+    intros H. apply akeys_aremove_In, akeys_aremove_In, Hsz in H. lia.
+  - intros x H. apply keys_mg_sizes in H; [|exact T1]. apply live_mg; [exact HG|].
+    destruct H as [(H & Xa & Xb)|->]; [right; split; [now apply T2 | tauto] | now left].
+  - intros x y H Hy. apply keys_mg_sizes; [exact T1|]. apply keys_mg_sizes in H; [|exact T1].
+    destruct (Nat.eq_dec y (ag_next g)) as [->|Yn]; [now right|]. left.
+    destruct H as [(H & Xa & Xb)|->].
+    + assert (Xn : x <> ag_next g) by (apply Hsz in H; lia).
+      destruct (isnb_mg_old g a b ra rb s1 s2 x y HG Ea Eb Xa Xb Xn Yn Hy) as (Ya & Yb & Hy').
+      split; [now apply (T3 x y) | tauto].
+    + destruct Hy as [Hne Hn]. rewrite nbw_mg in Hn by assumption. rewrite Nat.eqb_refl in Hn.
+      apply Nat.eqb_neq in Yn. rewrite Yn in Hn.
+      destruct (in2 a b y) eqn:Iy; [congruence|]. apply in2_false in Iy. destruct Iy as [Ya Yb].
+      split; [|tauto].
+      destruct (nbw g a y) eqn:E1.
+      * apply (T3 a y); [apply T5; now left|]. split; congruence.
+      * destruct (nbw g b y) eqn:E2; [|now cbn in Hn].
+        apply (T3 b y); [apply T5; right; now left|]. split; congruence.
+  - exact Hnd2.
+  - intros x H. apply keys_mg_sizes; [exact T1|]. left. split; [apply T5; right; now right|].
+    split; intros ->; [apply Hna; now right | tauto].
+  - cbn [cpairs] in T6. destruct T6 as [_ [_ C]]. apply cpairs_mg; try assumption.
+    intros x H. split; [apply T2, T5; right; now right|].
+    split; intros ->; [apply Hna; now right | tauto].
+  - left. intros E. apply app_eq_nil in E. destruct E; discriminate.
+Qed.
